@@ -77,6 +77,10 @@ func gate(op, path, path2 string, write bool, flags int) (int, error) {
 			o.Escaped = true
 			s.rec.Fired["escape_refused"]++
 			err = &fs.PathError{Op: op, Path: path, Err: syscall.EACCES}
+		} else if s.cfg.DenyCreate && createsEntry(op, path, path2, flags) {
+			o.Fault = "EACCES"
+			s.rec.Fired["io_error_create_denied"]++
+			err = &fs.PathError{Op: op, Path: path, Err: syscall.EACCES}
 		} else if s.cfg.FaultOpIndex != 0 && s.writes == s.cfg.FaultOpIndex {
 			o.Fault = s.cfg.FaultErrno
 			s.rec.Fired["io_error_"+s.cfg.FaultErrno]++
@@ -89,6 +93,25 @@ func gate(op, path, path2 string, write bool, flags int) (int, error) {
 	}
 	s.rec.Ops = append(s.rec.Ops, o)
 	return len(s.rec.Ops) - 1, err
+}
+
+// createsEntry: would this write-class operation add a directory entry?
+func createsEntry(op, path, path2 string, flags int) bool {
+	missing := func(p string) bool { _, err := os.Lstat(p); return err != nil }
+	switch op {
+	case "createtemp", "mkdirtemp":
+		return true
+	case "rename", "link", "symlink":
+		if path2 != "" {
+			return missing(path2)
+		}
+		return missing(path)
+	case "openfile":
+		return flags&os.O_CREATE != 0 && missing(path)
+	case "create", "writefile", "mkdir", "mkdirall":
+		return missing(path)
+	}
+	return false
 }
 
 func done(i int, err error) {
